@@ -79,6 +79,11 @@ pub fn build_module(arch: Arch, name: &str, m: &ModSpec) -> Module<Bytes> {
     if let DataSpec::Macho(spec) = &m.data {
         return crate::macho::build_macho_module(arch, name, m, spec);
     }
+    Module::new(name.to_string(), m.start..m.end, m.base_avma, dwarf_section_info(arch, m))
+}
+
+/// The sections of a DWARF (or data-less) module description.
+pub fn dwarf_section_info(arch: Arch, m: &ModSpec) -> ExplicitModuleSectionInfo<Bytes> {
     let text_svma = m.base_svma.wrapping_add(m.start.wrapping_sub(m.base_avma));
     let text_svma_end = m.base_svma.wrapping_add(m.end.wrapping_sub(m.base_avma));
     let eh_frame_svma = text_svma_end.wrapping_add(0x1000) & !7;
@@ -114,7 +119,7 @@ pub fn build_module(arch: Arch, name: &str, m: &ModSpec) -> Module<Bytes> {
             }
         },
     }
-    Module::new(name.to_string(), m.start..m.end, m.base_avma, info)
+    info
 }
 
 /// Architecture + allocation policy specific glue.
